@@ -207,6 +207,8 @@ def eval_result(x, ev: Evaluator):
         v = ev(c.val)
         return bool(v) if c.kind == "b" else v
 
+    if isinstance(x, (tuple, list)):
+        return tuple(eval_result(e, ev) for e in x)
     if isinstance(x, SymScalar):
         return cellval(x.cell)
     if isinstance(x, SymLabelSeries):
@@ -266,6 +268,9 @@ def same_pandas(a, b, ordered, check_index, check_names=True):
     """-> (bool, message)"""
     if isinstance(a, (pd.DataFrame, pd.Series, pd.Index)) != isinstance(b, (pd.DataFrame, pd.Series, pd.Index)):
         return False, f"kinds differ: {type(a).__name__} vs {type(b).__name__}"
+    if isinstance(a, (tuple, list)) and isinstance(b, (tuple, list)):
+        ok = len(a) == len(b) and all(_norm(x) == _norm(y) for x, y in zip(a, b))
+        return ok, f"{a!r} vs {b!r}"
     if not isinstance(a, (pd.DataFrame, pd.Series, pd.Index)):
         return (_norm(a) == _norm(b)), f"{a!r} vs {b!r}"
     if isinstance(a, pd.DataFrame) != isinstance(b, pd.DataFrame):
